@@ -1,23 +1,42 @@
 #![allow(dead_code)]
 //! pmh: correspondence + direct-oracle harness for pmtiles2 (built against /repo's working tree).
+mod gen_arch;
 mod gen_common;
 mod ops;
 mod ops2;
 mod oracle;
+mod p_archive;
 mod p_c05;
+mod p_codec;
+mod p_io;
 mod proto;
 mod rng;
+mod spec;
 mod streams;
 
 use gen_common::Stats;
 use std::collections::HashSet;
-use std::io::Write;
+use std::io::{BufRead, BufReader, Write};
+use std::process::{Child, Command, Stdio};
+use std::sync::mpsc;
+use std::time::Duration;
 
 fn gen_cases(prop: &str, seed: u64, quick: bool, st: &mut Stats) -> Vec<String> {
     let mut rng = rng::Rng::new(seed ^ u64::from_str_radix(&prop[1..], 10).unwrap_or(0) * 1_000_003);
     match prop {
         "C05" => p_c05::gen(&mut rng, quick, st),
-        _ => panic!("no generator for {prop}"),
+        "C07" => p_codec::gen_c07(&mut rng, quick, st),
+        "C09" => p_codec::gen_c09(&mut rng, quick, st),
+        "C19" => p_codec::gen_c19(&mut rng, quick, st),
+        _ => {
+            if let Some(v) = p_archive::gen(prop, &mut rng, quick, st) {
+                return v;
+            }
+            if let Some(v) = p_io::gen(prop, &mut rng, quick, st) {
+                return v;
+            }
+            panic!("no generator for {prop}")
+        }
     }
 }
 
@@ -27,9 +46,80 @@ fn run_line(line: &str) -> String {
         if let Some(r) = p_c05::run_chk(&toks) {
             return r;
         }
+        if let Some(r) = p_codec::run_chk(&toks) {
+            return r;
+        }
+        if let Some(r) = p_archive::run_chk(&toks) {
+            return r;
+        }
+        if let Some(r) = p_io::run_chk(&toks) {
+            return r;
+        }
         return format!("unsupported {}", toks[0]);
     }
     ops::run_op(&toks)
+}
+
+struct Worker {
+    child: Child,
+    rx: mpsc::Receiver<String>,
+}
+fn spawn_worker() -> Worker {
+    let exe = std::env::current_exe().expect("exe");
+    let mut child = Command::new(exe).arg("worker").stdin(Stdio::piped()).stdout(Stdio::piped()).stderr(Stdio::null()).spawn().expect("spawn worker");
+    let out = child.stdout.take().expect("stdout");
+    let (tx, rx) = mpsc::channel();
+    std::thread::spawn(move || {
+        for l in BufReader::new(out).lines() {
+            match l {
+                Ok(l) => {
+                    if tx.send(l).is_err() {
+                        break;
+                    }
+                }
+                Err(_) => break,
+            }
+        }
+    });
+    Worker { child, rx }
+}
+/// runs the lines in a sandboxed worker process: a panic is caught inside the worker; an abort, stack
+/// overflow, out-of-memory kill or time-out ends the worker and is attributed to the case
+fn run_isolated(lines: &[String], per_case: Duration) -> Vec<String> {
+    let mut out = Vec::with_capacity(lines.len());
+    let mut w = spawn_worker();
+    for line in lines {
+        let sent = {
+            let si = w.child.stdin.as_mut().expect("stdin");
+            writeln!(si, "{line}").and_then(|_| si.flush()).is_ok()
+        };
+        let r = if sent {
+            match w.rx.recv_timeout(per_case) {
+                Ok(r) => Some(r),
+                Err(mpsc::RecvTimeoutError::Timeout) => {
+                    let _ = w.child.kill();
+                    let _ = w.child.wait();
+                    out.push("crash timeout".to_string());
+                    w = spawn_worker();
+                    continue;
+                }
+                Err(mpsc::RecvTimeoutError::Disconnected) => None,
+            }
+        } else {
+            None
+        };
+        match r {
+            Some(r) => out.push(r),
+            None => {
+                let status = w.child.wait().ok();
+                out.push(format!("crash abort({})", status.map(|s| s.to_string()).unwrap_or_default().replace(' ', "_")));
+                w = spawn_worker();
+            }
+        }
+    }
+    let _ = w.child.kill();
+    let _ = w.child.wait();
+    out
 }
 
 fn main() {
@@ -37,6 +127,17 @@ fn main() {
     ops::silence_panics();
     match args.get(1).map(String::as_str) {
         Some("oracle") => oracle::serve(),
+        Some("worker") => {
+            let stdin = std::io::stdin();
+            let stdout = std::io::stdout();
+            for line in stdin.lock().lines() {
+                let Ok(line) = line else { break };
+                let r = run_line(line.trim_end());
+                let mut o = stdout.lock();
+                let _ = writeln!(o, "{}", r.replace('\n', " "));
+                let _ = o.flush();
+            }
+        }
         Some("run") => {
             // pmh run <PROP> <seed> <quick|thorough> <outdir> [corpus files...]
             let prop = &args[2];
@@ -59,13 +160,17 @@ fn main() {
             }
             lines.extend(gen_cases(prop, seed, quick, &mut st));
             let mut fc = std::io::BufWriter::new(std::fs::File::create(outdir.join("cases.txt")).unwrap());
+            for (i, line) in lines.iter().enumerate() {
+                writeln!(fc, "{i} {line}").unwrap();
+            }
+            fc.flush().unwrap();
+            let results = run_isolated(&lines, Duration::from_secs(if quick { 300 } else { 3000 }));
             let mut fi = std::io::BufWriter::new(std::fs::File::create(outdir.join("impl.txt")).unwrap());
             let mut distinct: HashSet<u64> = HashSet::new();
             let mut nontrivial = 0u64;
             let mut samples: Vec<String> = Vec::new();
             for (i, line) in lines.iter().enumerate() {
-                let r = run_line(line);
-                writeln!(fc, "{i} {line}").unwrap();
+                let r = &results[i];
                 writeln!(fi, "{i} {r}").unwrap();
                 let op = line.split(' ').next().unwrap_or("");
                 st.bump(&format!("op.{op}"));
@@ -86,7 +191,6 @@ fn main() {
                     }
                 }
             }
-            fc.flush().unwrap();
             fi.flush().unwrap();
             let mut js = String::from("{\n");
             js.push_str(&format!("  \"evaluations\": {},\n", lines.len()));
@@ -95,15 +199,14 @@ fn main() {
             js.push_str("  \"samples\": [");
             js.push_str(&samples.iter().map(|s| format!("{s:?}")).collect::<Vec<_>>().join(", "));
             js.push_str("],\n  \"counters\": {");
-            js.push_str(
-                &st.counters.iter().map(|(k, v)| format!("{k:?}: {v}")).collect::<Vec<_>>().join(", "),
-            );
+            js.push_str(&st.counters.iter().map(|(k, v)| format!("{k:?}: {v}")).collect::<Vec<_>>().join(", "));
             js.push_str("}\n}\n");
             std::fs::write(outdir.join("stats.json"), js).unwrap();
         }
         Some("replay") => {
             // pmh replay <file with case lines (optionally prefixed by an id)>
             let s = std::fs::read_to_string(&args[2]).expect("read");
+            let mut lines = Vec::new();
             for l in s.lines() {
                 let l = l.trim();
                 if l.is_empty() || l.starts_with('#') {
@@ -112,11 +215,14 @@ fn main() {
                 let mut parts = l.splitn(2, ' ');
                 let first = parts.next().unwrap();
                 let line = if first.chars().all(|c| c.is_ascii_digit()) { parts.next().unwrap_or("") } else { l };
-                println!("{}", run_line(line));
+                lines.push(line.to_string());
+            }
+            for r in run_isolated(&lines, Duration::from_secs(3000)) {
+                println!("{r}");
             }
         }
         _ => {
-            eprintln!("usage: pmh run|oracle|replay ...");
+            eprintln!("usage: pmh run|oracle|replay|worker ...");
             std::process::exit(2);
         }
     }
